@@ -25,6 +25,18 @@ pub enum Wrap {
     Vec,
     Box,
     Map,
+    /// HashMap<String, T>
+    MapStr,
+    /// Result<T, u32>
+    ResOk,
+    /// Result<String, T>
+    ResErr,
+    /// [T; 2]
+    Arr2,
+    /// [T; 3]
+    Arr3,
+    /// Vec<Option<T>>
+    VecOpt,
 }
 
 #[derive(Clone, Debug, PartialEq, Eq)]
@@ -34,6 +46,16 @@ pub enum Ty {
     Bool,
     Bytes,
     Unit,
+    I64,
+    F64,
+    Uuid,
+    ObjectId,
+    Value,
+    /// built-in generics over built-ins
+    VecU8,
+    SetStr,
+    Arr4U32,
+    Arr5U32,
     /// reference to slot j, wrapped
     Ref(usize, Wrap),
 }
@@ -93,6 +115,15 @@ fn lex(t: &Ty, table: &[Node]) -> LexicalId {
         Ty::Bool => LexicalId::BOOL,
         Ty::Bytes => LexicalId::BYTES,
         Ty::Unit => LexicalId::UNIT,
+        Ty::I64 => LexicalId::I64,
+        Ty::F64 => LexicalId::F64,
+        Ty::Uuid => LexicalId::UUID,
+        Ty::ObjectId => LexicalId::OBJECT_ID,
+        Ty::Value => LexicalId::VALUE,
+        Ty::VecU8 => LexicalId::vec(LexicalId::U8),
+        Ty::SetStr => LexicalId::set(LexicalId::STRING),
+        Ty::Arr4U32 => LexicalId::array(LexicalId::U32, 4),
+        Ty::Arr5U32 => LexicalId::array(LexicalId::U32, 5),
         Ty::Ref(j, w) => {
             let n = &table[*j];
             let inner = LexicalId::custom(&n.schema, &n.name);
@@ -102,6 +133,12 @@ fn lex(t: &Ty, table: &[Node]) -> LexicalId {
                 Wrap::Vec => LexicalId::vec(inner),
                 Wrap::Box => LexicalId::box_ty(inner),
                 Wrap::Map => LexicalId::map(LexicalId::U32, inner),
+                Wrap::MapStr => LexicalId::map(LexicalId::STRING, inner),
+                Wrap::ResOk => LexicalId::result(inner, LexicalId::U32),
+                Wrap::ResErr => LexicalId::result(LexicalId::STRING, inner),
+                Wrap::Arr2 => LexicalId::array(inner, 2),
+                Wrap::Arr3 => LexicalId::array(inner, 3),
+                Wrap::VecOpt => LexicalId::vec(LexicalId::option(inner)),
             }
         }
     }
@@ -239,6 +276,12 @@ macro_rules! slot_match {
                 ($n, Wrap::Vec) => $refs.add::<Vec<Slot<$n>>>(),
                 ($n, Wrap::Box) => $refs.add::<Box<Slot<$n>>>(),
                 ($n, Wrap::Map) => $refs.add::<HashMap<u32, Slot<$n>>>(),
+                ($n, Wrap::MapStr) => $refs.add::<HashMap<String, Slot<$n>>>(),
+                ($n, Wrap::ResOk) => $refs.add::<Result<Slot<$n>, u32>>(),
+                ($n, Wrap::ResErr) => $refs.add::<Result<String, Slot<$n>>>(),
+                ($n, Wrap::Arr2) => $refs.add::<[Slot<$n>; 2]>(),
+                ($n, Wrap::Arr3) => $refs.add::<[Slot<$n>; 3]>(),
+                ($n, Wrap::VecOpt) => $refs.add::<Vec<Option<Slot<$n>>>>(),
             )*
             _ => {}
         }
@@ -252,6 +295,15 @@ fn add_ref(t: &Ty, refs: &mut References) {
         Ty::Bool => refs.add::<bool>(),
         Ty::Bytes => refs.add::<aldrin_core::Bytes>(),
         Ty::Unit => refs.add::<()>(),
+        Ty::I64 => refs.add::<i64>(),
+        Ty::F64 => refs.add::<f64>(),
+        Ty::Uuid => refs.add::<Uuid>(),
+        Ty::ObjectId => refs.add::<aldrin_core::ObjectId>(),
+        Ty::Value => refs.add::<aldrin_core::Value>(),
+        Ty::VecU8 => refs.add::<Vec<u8>>(),
+        Ty::SetStr => refs.add::<std::collections::HashSet<String>>(),
+        Ty::Arr4U32 => refs.add::<[u32; 4]>(),
+        Ty::Arr5U32 => refs.add::<[u32; 5]>(),
         Ty::Ref(j, w) => slot_match!(*j, refs, w),
     }
 }
@@ -313,12 +365,21 @@ pub fn ids(table: &[Node]) -> Vec<TypeId> {
 
 fn gen_ty(t: &mut Tape, n: usize, value_only: bool, table_kinds: &[Kind]) -> Ty {
     if t.weighted(&[2, 3]) == 0 {
-        return match t.below(5) {
+        return match t.below(14) {
             0 => Ty::U32,
             1 => Ty::Str,
             2 => Ty::Bool,
             3 => Ty::Bytes,
-            _ => Ty::Unit,
+            4 => Ty::Unit,
+            5 => Ty::I64,
+            6 => Ty::F64,
+            7 => Ty::Uuid,
+            8 => Ty::ObjectId,
+            9 => Ty::Value,
+            10 => Ty::VecU8,
+            11 => Ty::SetStr,
+            12 => Ty::Arr4U32,
+            _ => Ty::Arr5U32,
         };
     }
     // reference to a value type (services cannot be referenced)
@@ -328,12 +389,18 @@ fn gen_ty(t: &mut Tape, n: usize, value_only: bool, table_kinds: &[Kind]) -> Ty 
     }
     let _ = value_only;
     let j = *t.pick(&cands);
-    let w = match t.below(5) {
+    let w = match t.below(11) {
         0 => Wrap::Plain,
         1 => Wrap::Option,
         2 => Wrap::Vec,
         3 => Wrap::Box,
-        _ => Wrap::Map,
+        4 => Wrap::Map,
+        5 => Wrap::MapStr,
+        6 => Wrap::ResOk,
+        7 => Wrap::ResErr,
+        8 => Wrap::Arr2,
+        9 => Wrap::Arr3,
+        _ => Wrap::VecOpt,
     };
     Ty::Ref(j, w)
 }
@@ -353,7 +420,7 @@ pub fn gen_graph(t: &mut Tape) -> Vec<Node> {
         let kind = kinds[i].clone();
         let schema = if t.bool() { "alpha" } else { "beta" }.to_string();
         let name = format!("{}{}", ["Thing", "Item", "Node"][t.below(3)], i);
-        let nm = if kind == Kind::Newtype { 0 } else { t.range(0, 4) };
+        let nm = if kind == Kind::Newtype { 0 } else { t.range(0, 5) };
         let mut members = vec![];
         let mut used = BTreeSet::new();
         for k in 0..nm {
@@ -377,7 +444,7 @@ pub fn gen_graph(t: &mut Tape) -> Vec<Node> {
         }
         let mut events = vec![];
         if kind == Kind::Service {
-            let ne = t.range(0, 2);
+            let ne = t.range(0, 3);
             let mut used = BTreeSet::new();
             for k in 0..ne {
                 let id = k as u32 + 10 * t.below(2) as u32;
@@ -482,10 +549,18 @@ fn has_cycle_or_chain(table: &[Node]) -> (bool, bool) {
 // ---------------------------------------------------------------------------------------------
 // edits
 
+fn selectors(t: &mut Tape) -> [u8; 18] {
+    let mut s = [0u8; 18];
+    for b in s.iter_mut() {
+        *b = t.u8();
+    }
+    s
+}
+
 /// Edits that must not change any id.
-fn neutral_edit(table: &[Node], t: &mut Tape) -> (Vec<Node>, &'static str) {
+fn neutral_edit(table: &[Node], sel: u8, t: &mut Tape) -> (Vec<Node>, &'static str) {
     let mut g = table.to_vec();
-    match t.below(4) {
+    match sel % 4 {
         0 => {
             for n in g.iter_mut() {
                 n.doc = Some(format!("changed docs {}", t.u8()));
@@ -498,8 +573,19 @@ fn neutral_edit(table: &[Node], t: &mut Tape) -> (Vec<Node>, &'static str) {
         }
         1 => {
             for n in g.iter_mut() {
-                n.members.reverse();
-                n.events.reverse();
+                if t.bool() {
+                    n.members.reverse();
+                    n.events.reverse();
+                } else {
+                    // rotate by a tape-chosen amount
+                    if !n.members.is_empty() {
+                        let k = t.below(n.members.len());
+                        n.members.rotate_left(k);
+                    }
+                    if n.events.len() > 1 {
+                        n.events.rotate_left(1);
+                    }
+                }
             }
             (g, "neutral:declaration-order")
         }
@@ -513,13 +599,17 @@ fn neutral_edit(table: &[Node], t: &mut Tape) -> (Vec<Node>, &'static str) {
     }
 }
 
-/// One semantic edit of node `e`; returns None if the chosen edit does not apply.
-fn semantic_edit(table: &[Node], e: usize, t: &mut Tape) -> Option<(Vec<Node>, &'static str)> {
+/// One semantic edit of node `e`; returns None if the chosen edit does not apply. The member that is
+/// edited is drawn from the tape (first, last, any), so a description that, say, only covers a
+/// type's first member does not go unnoticed.
+fn semantic_edit(table: &[Node], e: usize, sel: [u8; 3], t: &mut Tape) -> Option<(Vec<Node>, &'static str)> {
     let mut g = table.to_vec();
     let n_nodes = table.len();
     let kinds: Vec<Kind> = table.iter().map(|n| n.kind.clone()).collect();
-    let which = t.below(12);
+    let which = sel[0] as usize % 21;
     let n = &mut g[e];
+    let mi = if n.members.is_empty() { 0 } else { sel[1] as usize % n.members.len() };
+    let ei = if n.events.is_empty() { 0 } else { sel[2] as usize % n.events.len() };
     let label = match which {
         0 => {
             n.schema.push('x');
@@ -530,13 +620,13 @@ fn semantic_edit(table: &[Node], e: usize, t: &mut Tape) -> Option<(Vec<Node>, &
             "edit:type-name"
         }
         2 => {
-            let m = n.members.first_mut()?;
+            let m = n.members.get_mut(mi)?;
             m.name.push('z');
             "edit:member-name"
         }
         3 => {
             let taken: BTreeSet<u32> = n.members.iter().map(|m| m.id).collect();
-            let m = n.members.first_mut()?;
+            let m = n.members.get_mut(mi)?;
             let mut id = m.id + 1;
             while taken.contains(&id) {
                 id += 1;
@@ -548,7 +638,7 @@ fn semantic_edit(table: &[Node], e: usize, t: &mut Tape) -> Option<(Vec<Node>, &
             if n.kind != Kind::Struct {
                 return None;
             }
-            let m = n.members.first_mut()?;
+            let m = n.members.get_mut(mi)?;
             m.required = !m.required;
             "edit:required-flag"
         }
@@ -561,15 +651,13 @@ fn semantic_edit(table: &[Node], e: usize, t: &mut Tape) -> Option<(Vec<Node>, &
                 }
                 n.target = Some(new_ty);
             } else {
-                let m = n.members.first_mut()?;
-                if n.kind != Kind::Struct && m.ty.is_none() {
-                    m.ty = Some(new_ty);
-                } else {
-                    if m.ty.as_ref() == Some(&new_ty) {
-                        return None;
-                    }
-                    m.ty = Some(new_ty);
+                let is_struct = n.kind == Kind::Struct;
+                let m = n.members.get_mut(mi)?;
+                let old = if is_struct { Some(m.ty.clone().unwrap_or(Ty::U32)) } else { m.ty.clone() };
+                if old.as_ref() == Some(&new_ty) {
+                    return None;
                 }
+                m.ty = Some(new_ty);
             }
             "edit:referenced-type"
         }
@@ -609,9 +697,130 @@ fn semantic_edit(table: &[Node], e: usize, t: &mut Tape) -> Option<(Vec<Node>, &
             if n.kind != Kind::Service {
                 return None;
             }
-            let ev = n.events.first_mut()?;
-            ev.id += 50;
+            let taken: BTreeSet<u32> = n.events.iter().map(|m| m.id).collect();
+            let ev = n.events.get_mut(ei)?;
+            let mut id = ev.id + 1;
+            while taken.contains(&id) {
+                id += 1;
+            }
+            ev.id = id;
             "edit:event-id"
+        }
+        11 => {
+            if n.kind != Kind::Service {
+                return None;
+            }
+            let ev = n.events.get_mut(ei)?;
+            ev.name.push('y');
+            "edit:event-name"
+        }
+        12 => {
+            if n.kind != Kind::Service {
+                return None;
+            }
+            let new_ty = if t.chance(70) { Some(gen_ty(t, n_nodes, true, &kinds)) } else { None };
+            let ev = n.events.get_mut(ei)?;
+            if ev.ty == new_ty {
+                return None;
+            }
+            ev.ty = new_ty;
+            "edit:event-type"
+        }
+        13 => {
+            if n.kind != Kind::Service {
+                return None;
+            }
+            let new_ty = if t.chance(70) { Some(gen_ty(t, n_nodes, true, &kinds)) } else { None };
+            let m = n.members.get_mut(mi)?;
+            if m.ok == new_ty {
+                return None;
+            }
+            m.ok = new_ty;
+            "edit:function-ok-type"
+        }
+        14 => {
+            if n.kind != Kind::Service {
+                return None;
+            }
+            let new_ty = if t.chance(70) { Some(gen_ty(t, n_nodes, true, &kinds)) } else { None };
+            let m = n.members.get_mut(mi)?;
+            if m.err == new_ty {
+                return None;
+            }
+            m.err = new_ty;
+            "edit:function-err-type"
+        }
+        15 => {
+            if n.kind != Kind::Service {
+                return None;
+            }
+            n.event_fallback = match n.event_fallback {
+                Some(_) => None,
+                None => Some("unknown_event".into()),
+            };
+            "edit:event-fallback-toggled"
+        }
+        16 => {
+            if n.kind != Kind::Service {
+                return None;
+            }
+            let id = n.events.iter().map(|m| m.id).max().unwrap_or(0) + 3;
+            n.events.push(Member { id, name: "added_ev".into(), doc: None, required: false, ty: None, ok: None, err: None });
+            "edit:event-added"
+        }
+        17 => {
+            // same target, different wrapper / built-in of the same family (array length, key type)
+            let swap = |ty: &Ty| -> Option<Ty> {
+                Some(match ty {
+                    Ty::Ref(j, Wrap::Arr2) => Ty::Ref(*j, Wrap::Arr3),
+                    Ty::Ref(j, Wrap::Arr3) => Ty::Ref(*j, Wrap::Arr2),
+                    Ty::Ref(j, Wrap::Map) => Ty::Ref(*j, Wrap::MapStr),
+                    Ty::Ref(j, Wrap::MapStr) => Ty::Ref(*j, Wrap::Map),
+                    Ty::Ref(j, Wrap::Vec) => Ty::Ref(*j, Wrap::VecOpt),
+                    Ty::Ref(j, Wrap::VecOpt) => Ty::Ref(*j, Wrap::Vec),
+                    Ty::Ref(j, Wrap::Option) => Ty::Ref(*j, Wrap::Box),
+                    Ty::Ref(j, Wrap::Box) => Ty::Ref(*j, Wrap::Plain),
+                    Ty::Ref(j, Wrap::Plain) => Ty::Ref(*j, Wrap::Option),
+                    Ty::Ref(j, Wrap::ResOk) => Ty::Ref(*j, Wrap::ResErr),
+                    Ty::Ref(j, Wrap::ResErr) => Ty::Ref(*j, Wrap::ResOk),
+                    Ty::Arr4U32 => Ty::Arr5U32,
+                    Ty::Arr5U32 => Ty::Arr4U32,
+                    Ty::VecU8 => Ty::Bytes,
+                    Ty::Bytes => Ty::VecU8,
+                    Ty::U32 => Ty::I64,
+                    Ty::I64 => Ty::U32,
+                    _ => return None,
+                })
+            };
+            if n.kind == Kind::Newtype {
+                let cur = n.target.clone().unwrap_or(Ty::U32);
+                n.target = Some(swap(&cur)?);
+            } else {
+                let is_struct = n.kind == Kind::Struct;
+                let m = n.members.get_mut(mi)?;
+                let cur = if is_struct { m.ty.clone().unwrap_or(Ty::U32) } else { m.ty.clone()? };
+                m.ty = Some(swap(&cur)?);
+            }
+            "edit:wrapper-or-length"
+        }
+        18 => {
+            if n.kind == Kind::Newtype || n.members.len() < 2 {
+                return None;
+            }
+            n.members.remove(mi);
+            "edit:member-removed"
+        }
+        19 => {
+            // enum variant gains or loses its payload
+            if n.kind != Kind::Enum {
+                return None;
+            }
+            let m = n.members.get_mut(mi)?;
+            m.ty = match m.ty {
+                Some(_) => None,
+                None => Some(Ty::Str),
+            };
+            "edit:variant-payload-toggled"
         }
         _ => {
             if n.kind == Kind::Newtype {
@@ -635,12 +844,13 @@ fn plan(t: Tier) -> Vec<ClassPlan> {
         Tier::Quick => 1,
         Tier::Thorough => 20,
     };
-    vec![ClassPlan { class: "graph", cases: 12_000 * k, min_len: 8, max_len: 400 }]
+    vec![ClassPlan { class: "graph", cases: 12_000 * k, min_len: 24, max_len: 600 }]
 }
 
 pub fn render(_class: &str, tape: &[u8]) -> String {
     let mut t = Tape::new(tape);
     let _det = t.u32();
+    let _sel = selectors(&mut t);
     let g = gen_graph(&mut t);
     let mut s = String::new();
     for (i, n) in g.iter().enumerate() {
@@ -674,6 +884,8 @@ pub fn case(_class: &str, tape: &[u8], _strict: bool) -> Outcome {
 fn case_inner(tape: &[u8]) -> Outcome {
     let mut t = Tape::new(tape);
     let _det = t.u32();
+    // the edit selectors sit at the front of the tape so that a long graph cannot starve them
+    let sel = selectors(&mut t);
     let g = gen_graph(&mut t);
     let mut classes: Vec<&'static str> = vec![];
     let base = match catch(|| ids(&g)) {
@@ -690,8 +902,8 @@ fn case_inner(tape: &[u8]) -> Outcome {
         }
     }
     // neutral edits: nothing changes
-    for _ in 0..2 {
-        let (g2, label) = neutral_edit(&g, &mut t);
+    for k in 0..2 {
+        let (g2, label) = neutral_edit(&g, sel[k], &mut t);
         classes.push(label);
         let ids2 = match catch(|| ids(&g2)) {
             Ok(v) => v,
@@ -707,9 +919,10 @@ fn case_inner(tape: &[u8]) -> Outcome {
         }
     }
     // semantic edits: exactly the edited type and everything that references it change
-    for _ in 0..3 {
-        let e = t.below(g.len());
-        let Some((g2, label)) = semantic_edit(&g, e, &mut t) else { continue };
+    for k in 0..4 {
+        let o = 2 + 4 * k;
+        let e = sel[o] as usize % g.len();
+        let Some((g2, label)) = semantic_edit(&g, e, [sel[o + 1], sel[o + 2], sel[o + 3]], &mut t) else { continue };
         classes.push(label);
         let ids2 = match catch(|| ids(&g2)) {
             Ok(v) => v,
@@ -788,7 +1001,7 @@ fn case_inner(tape: &[u8]) -> Outcome {
 pub static DEF_INPROCESS: CheckDef = CheckDef {
     id: "C20",
     level: "exploration",
-    rule: "In-process class: random layout graphs (2-10 nodes: structs, enums, newtypes, services; references to other nodes plain or wrapped in Option/Vec/Box/Map, recursion and mutual recursion) built with the public IR builders behind const-generic Introspectable slots; ids computed for the graph, for neutral edits (docs, declaration order, reference visiting order, different HashMap seeds: must be identical) and for single semantic edits (schema/type/member name, member id, required flag, referenced type, fallback added/removed/renamed, service uuid/version, event id, member added: the edited type and exactly the types that reference it, transitively, must change); every Introspection record round-trips and its references are exactly the types its layout names. Non-trivial: the graph has a cycle or a >= 2-hop reference chain. Distinct = distinct id vector.",
+    rule: "In-process class: random layout graphs (2-10 nodes: structs, enums, newtypes, services; references to other nodes plain or wrapped in Option/Vec/Box/Map, recursion and mutual recursion) built with the public IR builders behind const-generic Introspectable slots; ids computed for the graph, for neutral edits (docs, declaration order, reference visiting order, different HashMap seeds: must be identical) and for single semantic edits of a tape-chosen member (schema/type/member name, member id, required flag, referenced type incl. wrapper-only and array-length-only changes, function ok/err type, event id/name/type, fallback and event fallback added/removed/renamed, service uuid/version, member or event added, member removed, variant payload toggled: the edited type and exactly the types that reference it, transitively, must change); every Introspection record round-trips and its references are exactly the types its layout names. Non-trivial: the graph has a cycle or a >= 2-hop reference chain. Distinct = distinct id vector.",
     assumptions: &["the IR builders are the statement of the wire-relevant description; Rust-level field types are limited to the wrappers listed"],
     plan,
     case,
